@@ -460,6 +460,11 @@ func runC17(r *Run, verifDir string) {
 	}
 
 	c17N9(r)
+	{
+		lc := &lexCtx{r: r, p: r.P, ord: map[string]int{}}
+		lc.l1Hex("C17.N10")
+		lc.trimCutset("C17.N10")
+	}
 	// ---------------- N8 re-registration keeps both directions in step
 	r.Rule("C17.N8", "RegisterEnum creates its two per-tag maps only when absent, both under the same condition (a second registration merges)", 1)
 	if re := p.Func("ttlv", "", "RegisterEnum"); re != nil && re.Blocks != nil {
